@@ -209,9 +209,10 @@ SUBSCRIPT_EXC = {'KeyError', 'IndexError', 'LookupError'}
 
 
 class Builder:
-    def __init__(self, program, maxdepth=10, inline_filter=None):
+    def __init__(self, program, maxdepth=10, inline_filter=None, call_exc=False):
         self.P = program
         self.maxdepth = maxdepth
+        self.call_exc = call_exc        # every call that is not inlined may raise: 'exc' edges to the handlers / the finally block / the raise exit
         self.inline_filter = inline_filter or (lambda frame, callee_cls, fn: True)
 
     # ---- public ----------------------------------------------------------
@@ -292,6 +293,13 @@ class Builder:
                 if has_key_sub or (has_sub and set(names) & {'IndexError', 'LookupError'}):
                     self.g.edge(n, h, 'exc')
                     break
+        if self.call_exc and any(isinstance(x, ast.Call) and (self.g.nodes[n].frame.id, id(x)) not in self.g.inlined for x in ast.walk(st)):
+            for names, h in ctx.handlers:
+                self.g.edge(n, h, 'exc')
+                if names is None or 'Exception' in names or 'BaseException' in names:
+                    break
+            else:
+                self.g.edge(n, ctx.raise_to, 'exc')
 
     def _stmt(self, st, frontier, frame, ctx):
         g = self.g
@@ -1792,7 +1800,28 @@ def search_scan_to_index_scan(P, fn, stmts):
             hit = P.lookup(owner, e.func.attr)
             if hit and hit[1] == 'method':
                 return _first_index_helper(hit[2])
+        # the same helper already inlined (a helper that the pinned tree does not have is inlined at load time, L17)
+        if isinstance(e, ast.Call) and isinstance(e.func, ast.Name) and e.func.id == 'next' and len(e.args) == 2 and not e.keywords \
+                and isinstance(e.args[0], ast.GeneratorExp) and len(e.args[0].generators) == 1:
+            gen = e.args[0].generators[0]
+            if isinstance(gen.iter, ast.Call) and isinstance(gen.iter.func, ast.Name) and gen.iter.func.id == 'range' and len(gen.iter.args) == 2 \
+                    and arg_pred(gen.iter.args[0]):
+                fd = ast.FunctionDef(name='_inlined', args=ast.arguments(posonlyargs=[], args=[ast.arg(arg='self'), ast.arg(arg='_sa_start')], vararg=None,
+                                                                       kwonlyargs=[], kw_defaults=[], kwarg=None, defaults=[]),
+                                     body=[ast.Return(value=copy.deepcopy(e))], decorator_list=[], returns=None)
+                fd.body[0].value.args[0].generators[0].iter.args[0] = ast.Name(id='_sa_start', ctx=ast.Load())
+                return _first_index_helper(fd)
         return None
+
+    def same_search(a, b):
+        def canon(h):
+            Lt, idx, cond = h
+
+            class Ren(ast.NodeTransformer):
+                def visit_Name(self_, x):
+                    return ast.Name(id='_sa_i', ctx=x.ctx) if x.id == idx else x
+            return Lt, ast.unparse(Ren().visit(copy.deepcopy(cond)))
+        return canon(a) == canon(b)
     out = list(stmts)
     changed = False
     for k in range(len(out) - 1):
@@ -1807,7 +1836,7 @@ def search_scan_to_index_scan(P, fn, stmts):
         last = nxt.body[-1]
         h1 = helper_call(last.value, lambda a: isinstance(a, ast.Name) and a.id == pv) if isinstance(last, ast.Assign) and len(last.targets) == 1 \
             and isinstance(last.targets[0], ast.Name) and last.targets[0].id == pv else None
-        if h0 is None or h1 is None or not not_none or ast.unparse(st.value.func) != ast.unparse(last.value.func):
+        if h0 is None or h1 is None or not not_none or ast.unparse(st.value.func) != ast.unparse(last.value.func) or not same_search(h0, h1):
             continue
         body = nxt.body[:-1]
         if any(isinstance(x, (ast.Continue, ast.Break)) or (isinstance(x, ast.Name) and x.id == pv and isinstance(x.ctx, ast.Store)) for b in body for x in ast.walk(b)):
